@@ -92,7 +92,7 @@ MINUTES = [0, 1, 2, 59, 60, 61, 90, 1092, 1093, 1440, 65535, 65536, 65537, 10000
            100000000, 2147483647]
 BIG_MINUTES = ["2147483648", "4294967295", "4294967296", "71582788000", "1000000000000"]
 SECS = [0, 1, 59, 60, 3540, 3599, 3600, 3601, 3659, 3660, 5400, 7260, 43200, 86339, 86340, 86341, 86399, 86400, 86401, 90000, 172800, -60]
-CLOCK_BAD = ["", ":", "2100", "21", "21:", ":00", "24:00", "23:60", "ab:cd", "21:00:33", "21:00:", "1:2:3", "-1:00", "21.00"]
+from ..clockstrings import LENIENT as CLOCK_LENIENT, MALFORMED as CLOCK_BAD  # noqa: E402
 
 
 def sched_args(rng, zone: str, now: int, kind: str = "ok"):
@@ -107,7 +107,7 @@ def sched_args(rng, zone: str, now: int, kind: str = "ok"):
     elif kind == "badclock":
         a[rng.choice(["start_s", "end_s"])] = rng.choice(CLOCK_BAD)
     elif kind == "lenient":
-        a[rng.choice(["start_s", "end_s"])] = rng.choice(["9:05", "09:5", "7:7"])
+        a[rng.choice(["start_s", "end_s"])] = rng.choice(CLOCK_LENIENT)
     return a
 
 
@@ -256,6 +256,7 @@ def grid_type1_ops(ctx: Ctx, rng, zone: str, now: int) -> list[dict]:
     secs = list(SECS)
     if not ctx.quick:
         secs += list(range(3600 - 120, 3600 + 121)) + list(range(86340 - 120, 86400 + 121))
+    secs += [60 * m for m in range(60, 1440)]        # every whole minute of the accepted range 1 h .. 23 h 59 min
     for s in secs:
         ops.append(op1(rng, "set_auto_shutdown", {"secs": s}))
     for cps in names(ctx):
@@ -265,6 +266,13 @@ def grid_type1_ops(ctx: Ctx, rng, zone: str, now: int) -> list[dict]:
     for k in range(ctx.pick(60, 1500)):
         kind = ["ok", "ok", "ok", "list", "dup", "badclock", "lenient"][k % 7]
         ops.append(op1(rng, "create_schedule", sched_args(rng, zone, now, kind)))
+    for n, bad in enumerate(CLOCK_BAD):               # every malformed spelling, as the start and as the end
+        for which in ("start_s", "end_s"):
+            a = sched_args(rng, zone, now, "ok")
+            if not a["days"]:
+                a["days"] = [n % 7]
+            a[which] = bad
+            ops.append(op1(rng, "create_schedule", a))
     for _ in range(3):
         ops.append(op1(rng, "get_state", {}))
         ops.append(op1(rng, "get_schedules", {"zone": zone_rules(zone, now)}))
